@@ -473,6 +473,8 @@ def gen_circuit(cirq, rng, kinds, tags=True, nest=True, mods=None):
         c = gen_measured(cirq, rng, confusion=False)
     elif kind == 'measured-nocc':
         c = gen_measured(cirq, rng, cc=False)
+    elif kind == 'measured-nocc-nc':
+        c = gen_measured(cirq, rng, cc=False, confusion=False)
     elif kind == 'ejectable':
         c = gen_ejectable(cirq, rng)
     elif kind == 'ejectable-measured':
@@ -661,7 +663,7 @@ def make_configs(cirq, mods):
     def not_terminal(c, deep, ign):
         return not c.are_all_measurements_terminal()
     C.append(Cfg('drop_terminal_measurements', '', lambda c, context: t.drop_terminal_measurements(c, context=cirq.TransformerContext(deep=True, tags_to_ignore=context.tags_to_ignore)), 'special',
-                 kinds=('terminal-nc', 'terminal-nc', 'measured-nocc'), contract='drop_terminal', sub_exempt=True, deep=False, expect_raise=raises_documented(ValueError, not_terminal)))
+                 kinds=('terminal-nc', 'terminal-nc', 'measured-nocc-nc'), contract='drop_terminal', sub_exempt=True, deep=False, expect_raise=raises_documented(ValueError, not_terminal)))
     C.append(Cfg('lightcone_filter', '', ctx_call(t.lightcone_filter), 'special', kinds=('measured', 'terminal'), contract='records', ignore=False, deep=False, sub_exempt=True))
     return C
 
